@@ -6199,14 +6199,14 @@ impl QueryRouter {
     fn execute_select(&self, command: &str) -> Result<QueryResult> {
         // Support both: SELECT <table> [WHERE <condition>]
         // and: SELECT * FROM <table> [WHERE <condition>] [LIMIT n]
-        let upper = command.to_uppercase();
+        let upper = command.to_ascii_uppercase();
 
         // Check for FROM clause (standard SQL syntax)
         if let Some(from_pos) = upper.find(" FROM ") {
             let rest_after_from = &command[from_pos + 6..];
 
             // Find table name (until WHERE, LIMIT, or end)
-            let upper_rest = rest_after_from.to_uppercase();
+            let upper_rest = rest_after_from.to_ascii_uppercase();
             let end_pos = upper_rest
                 .find(" WHERE ")
                 .or_else(|| upper_rest.find(" LIMIT "))
@@ -6216,7 +6216,7 @@ impl QueryRouter {
             // Parse WHERE condition
             let condition = if let Some(where_pos) = upper_rest.find(" WHERE ") {
                 let after_where = &rest_after_from[where_pos + 7..];
-                let limit_pos = after_where.to_uppercase().find(" LIMIT ");
+                let limit_pos = after_where.to_ascii_uppercase().find(" LIMIT ");
                 let cond_str = limit_pos.map_or(after_where, |pos| &after_where[..pos]);
                 self.parse_condition(cond_str.trim())?
             } else {
@@ -6245,7 +6245,7 @@ impl QueryRouter {
         }
 
         let rest = parts[1].trim();
-        let (table, condition) = if let Some(pos) = rest.to_uppercase().find(" WHERE ") {
+        let (table, condition) = if let Some(pos) = rest.to_ascii_uppercase().find(" WHERE ") {
             let table = rest[..pos].trim();
             let cond_str = rest[pos + 7..].trim();
             (table, self.parse_condition(cond_str)?)
@@ -6276,15 +6276,18 @@ impl QueryRouter {
 
     fn execute_update(&self, command: &str) -> Result<QueryResult> {
         // UPDATE <table> SET <col>=<val>, ... [WHERE <condition>]
-        let upper = command.to_uppercase();
+        let upper = command.to_ascii_uppercase();
         let set_pos = upper
             .find(" SET ")
             .ok_or_else(|| RouterError::ParseError("Missing SET clause".to_string()))?;
 
-        let table_part = &command[7..set_pos].trim();
+        let table_part = &command
+            .get(7..set_pos)
+            .ok_or_else(|| RouterError::ParseError("Missing table name".to_string()))?
+            .trim();
         let rest = &command[set_pos + 5..];
 
-        let (values_str, condition) = if let Some(pos) = rest.to_uppercase().find(" WHERE ") {
+        let (values_str, condition) = if let Some(pos) = rest.to_ascii_uppercase().find(" WHERE ") {
             (&rest[..pos], self.parse_condition(&rest[pos + 7..])?)
         } else {
             (rest, Condition::True)
@@ -6303,7 +6306,7 @@ impl QueryRouter {
         }
 
         let rest = parts[1].trim();
-        let (table, condition) = if let Some(pos) = rest.to_uppercase().find(" WHERE ") {
+        let (table, condition) = if let Some(pos) = rest.to_ascii_uppercase().find(" WHERE ") {
             (&rest[..pos], self.parse_condition(&rest[pos + 7..])?)
         } else {
             (rest, Condition::True)
@@ -6336,7 +6339,7 @@ impl QueryRouter {
     fn execute_create(&self, command: &str) -> Result<QueryResult> {
         // CREATE TABLE <table> (<col>:<type>, ...)
         // CREATE INDEX <table> <column>
-        let upper = command.to_uppercase();
+        let upper = command.to_ascii_uppercase();
 
         if upper.starts_with("CREATE TABLE ") {
             self.execute_create_table(command)
@@ -6358,7 +6361,15 @@ impl QueryRouter {
             .rfind(')')
             .ok_or_else(|| RouterError::ParseError("Missing closing parenthesis".to_string()))?;
 
-        let table = command[13..paren_start].trim();
+        if paren_end < paren_start {
+            return Err(RouterError::ParseError(
+                "Closing parenthesis before the column definitions".to_string(),
+            ));
+        }
+        let table = command
+            .get(13..paren_start)
+            .ok_or_else(|| RouterError::ParseError("Missing table name".to_string()))?
+            .trim();
         let cols_str = &command[paren_start + 1..paren_end];
 
         let mut columns = Vec::new();
@@ -6372,7 +6383,7 @@ impl QueryRouter {
             }
 
             let name = parts[0].trim();
-            let type_str = parts[1].trim().to_uppercase();
+            let type_str = parts[1].trim().to_ascii_uppercase();
             let nullable = type_str.ends_with('?');
             let type_str = type_str.trim_end_matches('?');
 
@@ -6414,7 +6425,7 @@ impl QueryRouter {
     fn execute_drop(&self, command: &str) -> Result<QueryResult> {
         // DROP TABLE <table>
         // DROP INDEX <table> <column>
-        let upper = command.to_uppercase();
+        let upper = command.to_ascii_uppercase();
 
         if upper.starts_with("DROP TABLE ") {
             let table = command[11..].trim();
@@ -6489,7 +6500,7 @@ impl QueryRouter {
             return Err(RouterError::MissingArgument("subcommand".to_string()));
         }
 
-        let subcmd = parts[1].to_uppercase();
+        let subcmd = parts[1].to_ascii_uppercase();
         match subcmd.as_str() {
             "CREATE" => {
                 if parts.len() < 3 {
@@ -6602,7 +6613,7 @@ impl QueryRouter {
             return Err(RouterError::MissingArgument("subcommand".to_string()));
         }
 
-        let subcmd = parts[1].to_uppercase();
+        let subcmd = parts[1].to_ascii_uppercase();
         match subcmd.as_str() {
             "CREATE" => {
                 if parts.len() < 3 {
@@ -6647,7 +6658,7 @@ impl QueryRouter {
             .map_err(|_| RouterError::InvalidArgument("Invalid node ID".to_string()))?;
 
         let direction_str = if parts.len() > 2 {
-            parts[2].to_uppercase()
+            parts[2].to_ascii_uppercase()
         } else {
             "BOTH".to_string()
         };
@@ -6750,12 +6761,12 @@ impl QueryRouter {
         let cond_str = cond_str.trim();
 
         // Handle AND/OR
-        if let Some(pos) = cond_str.to_uppercase().find(" AND ") {
+        if let Some(pos) = cond_str.to_ascii_uppercase().find(" AND ") {
             let left = self.parse_condition(&cond_str[..pos])?;
             let right = self.parse_condition(&cond_str[pos + 5..])?;
             return Ok(left.and(right));
         }
-        if let Some(pos) = cond_str.to_uppercase().find(" OR ") {
+        if let Some(pos) = cond_str.to_ascii_uppercase().find(" OR ") {
             let left = self.parse_condition(&cond_str[..pos])?;
             let right = self.parse_condition(&cond_str[pos + 4..])?;
             return Ok(left.or(right));
@@ -6792,21 +6803,22 @@ impl QueryRouter {
         let val_str = val_str.trim();
 
         // NULL
-        if val_str.to_uppercase() == "NULL" {
+        if val_str.to_ascii_uppercase() == "NULL" {
             return Ok(Value::Null);
         }
 
         // Boolean
-        if val_str.to_uppercase() == "TRUE" {
+        if val_str.to_ascii_uppercase() == "TRUE" {
             return Ok(Value::Bool(true));
         }
-        if val_str.to_uppercase() == "FALSE" {
+        if val_str.to_ascii_uppercase() == "FALSE" {
             return Ok(Value::Bool(false));
         }
 
         // String (quoted)
-        if (val_str.starts_with('"') && val_str.ends_with('"'))
-            || (val_str.starts_with('\'') && val_str.ends_with('\''))
+        if val_str.len() >= 2
+            && ((val_str.starts_with('"') && val_str.ends_with('"'))
+                || (val_str.starts_with('\'') && val_str.ends_with('\'')))
         {
             return Ok(Value::String(val_str[1..val_str.len() - 1].to_string()));
         }
@@ -6873,17 +6885,18 @@ impl QueryRouter {
     fn parse_property_value(&self, val_str: &str) -> PropertyValue {
         let val_str = val_str.trim();
 
-        if val_str.to_uppercase() == "NULL" {
+        if val_str.to_ascii_uppercase() == "NULL" {
             return PropertyValue::Null;
         }
-        if val_str.to_uppercase() == "TRUE" {
+        if val_str.to_ascii_uppercase() == "TRUE" {
             return PropertyValue::Bool(true);
         }
-        if val_str.to_uppercase() == "FALSE" {
+        if val_str.to_ascii_uppercase() == "FALSE" {
             return PropertyValue::Bool(false);
         }
-        if (val_str.starts_with('"') && val_str.ends_with('"'))
-            || (val_str.starts_with('\'') && val_str.ends_with('\''))
+        if val_str.len() >= 2
+            && ((val_str.starts_with('"') && val_str.ends_with('"'))
+                || (val_str.starts_with('\'') && val_str.ends_with('\'')))
         {
             return PropertyValue::String(val_str[1..val_str.len() - 1].to_string());
         }
@@ -6947,7 +6960,7 @@ impl QueryRouter {
         let mut directed = true;
 
         for part in parts.iter().skip(3) {
-            let upper = part.to_uppercase();
+            let upper = part.to_ascii_uppercase();
             if upper == "DIRECTED" {
                 directed = true;
             } else if upper == "UNDIRECTED" {
@@ -6981,7 +6994,7 @@ impl QueryRouter {
     }
 
     fn parse_similar_args(&self, rest: &str) -> Result<(Vec<f32>, usize)> {
-        let upper = rest.to_uppercase();
+        let upper = rest.to_ascii_uppercase();
         let mut top_k = 10;
 
         // Check for TOP clause
